@@ -227,6 +227,25 @@ fn with_peers<T>(f: impl FnOnce(&mut Peer, &mut Peer) -> Result<T, String>) -> R
 	})
 }
 
+thread_local! {
+	static BOTH_PEER: RefCell<Option<Peer>> = RefCell::new(None);
+}
+
+/// The build with aws-lc-rs in charge and `ring` + `zeroize` switched on as well.
+fn with_both_peer<T>(f: impl FnOnce(&mut Peer) -> Result<T, String>) -> Result<T, String> {
+	BOTH_PEER.with(|p| {
+		let mut p = p.borrow_mut();
+		if p.is_none() {
+			*p = Some(spawn("both")?);
+		}
+		let r = f(p.as_mut().unwrap());
+		if matches!(&r, Err(e) if e.starts_with("INTERNAL")) {
+			*p = None;
+		}
+		r
+	})
+}
+
 fn signer_of(a: &Art) -> KeySpec {
 	match a {
 		Art::Cert(c) => signer_key(c),
@@ -420,7 +439,12 @@ pub fn check_loaded_keyx(k: &LoadedKeyXchg, info: &mut CaseInfo) -> Result<(), S
 	let route = (ks.idx as usize / keys::fixtures().pools[&ks.alg].len()) % keys::LOADER_ROUTES;
 	info.class(format!("{:?}:route{}:{}:{}", ks.alg, route, if k.aws_to_ring { "aws->ring" } else { "ring->aws" }, if k.pem { "pem" } else { "der" }));
 	let want_alg = alg_name(keys::rcgen_alg(&ks));
-	with_peers(|aws, _| {
+	// every third aws->ring case asks the build that has `ring` and `zeroize` switched on as well
+	let use_both = k.aws_to_ring && ks.idx % 3 == 0;
+	if use_both {
+		info.class("exporting-build:aws+ring+zeroize");
+	}
+	let run = |aws: &mut Peer| -> Result<(), String> {
 		if k.aws_to_ring {
 			let r = ask(aws, &json!({"op": "exportkey", "key": ks}))?;
 			if r["ok"] != json!(true) {
@@ -461,7 +485,12 @@ pub fn check_loaded_keyx(k: &LoadedKeyXchg, info: &mut CaseInfo) -> Result<(), S
 			}
 		}
 		Ok(())
-	})
+	};
+	if use_both {
+		with_both_peer(run)
+	} else {
+		with_peers(|aws, _| run(aws))
+	}
 }
 
 #[cfg(not(feature = "crypto"))]
